@@ -1,10 +1,185 @@
-(* C09 - cursor position and mouse hit-testing agree with what is drawn (statements; under construction) *)
+(* C09 - Cursor position and mouse hit-testing agree with what is drawn.
+   Only statements here; every proof is [exact <lemma>] into Proofs/GeometryProofs.v.
+   The model (Model/Geometry.v) writes, for every container, the FOUR methods from their own code
+   paths: [place] (render), [cursor_coords] (get_cursor_coords), [mouse_route] / [mouse_leaf]
+   (mouse_event) and [move_cursor] (move_cursor_to_coords); [fits w s] says that no widget on the way
+   is hidden or clipped at size [s].  The padding / filler arithmetic is [geo_padfill_gen], regenerated
+   from /repo on every run.
+
+   Proved for: Leaf (spy / Edit-like leaf given by data), Pile, Columns, Padding, Filler, Frame, BoxAdapter,
+   AttrMap, LineBox (a composition of Pile and Columns: [linebox]), and Overlay where stated.
+   Overlay: hit-testing is proved when the top widget is a box widget; for a flow top widget (height
+   'pack') and for get_cursor_coords the statements are REFUTED by witnesses below (defects of urwid). *)
 From Coq Require Import ZArith List Bool.
 Import ListNotations.
-From Urwid Require Import PyBase geo_padfill_gen Geometry.
+From Urwid Require Import PyBase geo_padfill_gen Geometry GeometryFacts GeometryProofs.
 Open Scope Z_scope.
 
-Example model_computes :
-  run_case [3; 0; 0; 0; 0; 0; 0; 1; 0; 1; 1; 1; 1; 0; 0; 1] <> [-1].
-Proof. vm_compute. discriminate. Qed.
-Print Assumptions model_computes.
+(* ------------------------------------------------------------------------------------------ *)
+(* clause 1: the cursor a widget reports without rendering = the cursor of its focused rendering *)
+(* ------------------------------------------------------------------------------------------ *)
+
+(* the cursor of a rendering is the (last) cursor of the children as placed by [place], translated by the
+   child's offset; children are rendered with focus only when they are the container's focus *)
+Theorem render_cursor_from_place :
+  forall w s focus,
+    render_cursor w s focus =
+    match w with
+    | Leaf l => if focus then leaf_cursor l s else None
+    | _ => fold_left (fun acc p =>
+                        match v_rcursor (child_view w (p_idx p)) (p_size p) (focus && p_isfocus p) with
+                        | Some (x, y) => Some (x + p_x p, y + p_y p)
+                        | None => acc
+                        end) (place w s) None
+    end.
+Proof. intros w s focus. unfold render_cursor, place. rewrite view_eq. destruct w; reflexivity. Qed.
+Print Assumptions render_cursor_from_place.
+
+(* every tree without an Overlay, every size at which it fits *)
+Theorem cursor_agree :
+  forall w s, ov_free w = true -> fits w s = true ->
+    cursor_coords w s = of_oxy (render_cursor w s true).
+Proof. intros w s Ho Hf. exact (cursor_deep_all w Ho s Hf). Qed.
+Print Assumptions cursor_agree.
+
+(* the full statement (Overlay included) is false of the faithful model: Overlay.get_cursor_coords
+   unpacks the top widget's answer unconditionally (TypeError when it is None) *)
+Definition cursor_agree_full : Prop :=
+  forall w s, fits w s = true -> cursor_coords w s = of_oxy (render_cursor w s true).
+
+Definition overlay_witness_1 : widget :=
+  Overlay (Leaf (LeafD 0 true 1 0 true true None [] 1)) (border_leaf true)
+          GLeft 0 GRelative 100 None 0 0 GTop 0 GRelative 100 None 0 0.
+
+Theorem cursor_agree_overlay_refuted :
+  exists w s, fits w s = true /\ render_cursor w s true = None /\ cursor_coords w s = CErr TypeError.
+Proof. exists overlay_witness_1, (1, Some 1). vm_compute. auto. Qed.
+Print Assumptions cursor_agree_overlay_refuted.
+
+(* ------------------------------------------------------------------------------------------ *)
+(* clause 2: a mouse event on a cell where a child is drawn goes to that child, with coordinates *)
+(* relative to the child's top-left corner, and to no other child                               *)
+(* ------------------------------------------------------------------------------------------ *)
+
+(* one level, every widget class (an Overlay with a box top widget): for every child rectangle of
+   [place] and every cell inside it, mouse_event hands the event to exactly that child, with the
+   size render handed to it and the cell translated by the child's offset *)
+Theorem mouse_hits_drawn_child :
+  forall w s p col row focus,
+    fits w s = true -> top_not_pack_overlay w = true ->
+    In p (place w s) -> p_bg p = false ->
+    in_rect (p_x p) (p_y p) (fst (p_size p)) (crows (child_info w (p_idx p)) (p_size p)) col row ->
+    exists f, mouse_route w s col row focus = Some (Routed (p_idx p) (p_size p) (col - p_x p) (row - p_y p) f).
+Proof. exact mouse_route_hits_child. Qed.
+Print Assumptions mouse_hits_drawn_child.
+
+(* ... and to no other child: two drawn children whose rectangles contain the cell are the same child *)
+Theorem mouse_to_no_other_child :
+  forall w s p q col row,
+    fits w s = true -> top_not_pack_overlay w = true ->
+    In p (place w s) -> p_bg p = false -> In q (place w s) -> p_bg q = false ->
+    in_rect (p_x p) (p_y p) (fst (p_size p)) (crows (child_info w (p_idx p)) (p_size p)) col row ->
+    in_rect (p_x q) (p_y q) (fst (p_size q)) (crows (child_info w (p_idx q)) (p_size q)) col row ->
+    p_idx p = p_idx q /\ p_size p = p_size q /\ p_x p = p_x q /\ p_y p = p_y q.
+Proof. exact mouse_route_unique. Qed.
+Print Assumptions mouse_to_no_other_child.
+
+(* all the way down (structural induction over the tree): a press on any cell of the rectangle in which
+   a leaf is drawn reaches that leaf, with coordinates relative to the leaf's top-left corner and the size
+   the leaf was rendered with; whatever the focus flags of the rendering and of the event *)
+Theorem mouse_reaches_drawn_leaf :
+  forall w s f1 f2 r col row,
+    ov_boxtop w = true -> fits w s = true ->
+    In r (leaf_rects w s f1) -> rc_bg r = false ->
+    in_rect (rc_x r) (rc_y r) (rc_cols r) (rc_rows r) col row ->
+    exists f, mouse_leaf w s col row f2 = Some (Hit (rc_id r) (col - rc_x r) (row - rc_y r) f (rc_size r)).
+Proof. intros w s f1 f2 r col row Ho Hf. exact (mouse_deep_all w Ho s f1 f2 r col row Hf). Qed.
+Print Assumptions mouse_reaches_drawn_leaf.
+
+(* the drawn rectangles lie inside the canvas of the widget (what "cell of the rendered area" means) *)
+Theorem leaf_rects_inside_canvas :
+  forall w s f r, fits w s = true -> In r (leaf_rects w s f) ->
+    0 <= rc_x r /\ rc_x r + rc_cols r <= fst s /\ 0 <= rc_y r /\ rc_y r + rc_rows r <= canvas_rows w s.
+Proof. intros w s f r Hf Hr. destruct (view_good w) as [_ [H _]]. exact (H s f r Hf Hr). Qed.
+Print Assumptions leaf_rects_inside_canvas.
+
+(* the full statement (any Overlay) is false of the faithful model: Overlay.calculate_padding_filler takes the
+   height of a flow top widget from rows((maxcol,)) at the overlay's FULL width, not at the top widget's width *)
+Definition mouse_reaches_drawn_leaf_full : Prop :=
+  forall w s f1 f2 r col row,
+    fits w s = true -> In r (leaf_rects w s f1) -> rc_bg r = false ->
+    in_rect (rc_x r) (rc_y r) (rc_cols r) (rc_rows r) col row ->
+    exists f, mouse_leaf w s col row f2 = Some (Hit (rc_id r) (col - rc_x r) (row - rc_y r) f (rc_size r)).
+
+Definition overlay_witness_2 : widget :=
+  Overlay (Leaf (LeafD 0 false 1 3 true true (Some (0, 0)) [] 1)) (border_leaf true)
+          GLeft 0 GGiven 2 None 0 0 GTop 0 GPack 0 None 0 0.
+
+Theorem mouse_overlay_flow_top_refuted :
+  exists w s r col row,
+    fits w s = true /\ In r (leaf_rects w s true) /\ rc_bg r = false /\
+    in_rect (rc_x r) (rc_y r) (rc_cols r) (rc_rows r) col row /\
+    mouse_leaf w s col row true = None.
+Proof.
+  exists overlay_witness_2, (4, Some 3), (Rect 0 0 0 2 2 true (2, None) false), 0, 1.
+  vm_compute. repeat split; auto; discriminate.
+Qed.
+Print Assumptions mouse_overlay_flow_top_refuted.
+
+(* ------------------------------------------------------------------------------------------ *)
+(* clause 3: move_cursor_to_coords succeeds exactly when the wrapped widget accepts the          *)
+(* correspondingly translated cell                                                               *)
+(* ------------------------------------------------------------------------------------------ *)
+Theorem move_cursor_iff_child :
+  forall w s p col row,
+    fits w s = true -> In p (place w s) -> p_bg p = false ->
+    in_rect (p_x p) (p_y p) (fst (p_size p)) (crows (child_info w (p_idx p)) (p_size p)) col row ->
+    i_hasmove (info w) = true ->
+    i_sel (child_info w (p_idx p)) = true -> i_hasmove (child_info w (p_idx p)) = true ->
+    m_ok (move_cursor w s col row)
+    = m_ok (v_move (child_view w (p_idx p)) (p_size p) (col - p_x p) (row - p_y p)) /\
+    m_asked (move_cursor w s col row)
+    = m_asked (v_move (child_view w (p_idx p)) (p_size p) (col - p_x p) (row - p_y p)).
+Proof. exact move_iff_child. Qed.
+Print Assumptions move_cursor_iff_child.
+
+(* the children [child_view w i] are the views of the sub-widgets *)
+Theorem child_view_is_subwidget :
+  forall items fp i o c, nthz items i = Some (o, c) -> child_view (Pile items fp) i = view c.
+Proof.
+  intros items fp i o c H. unfold child_view, nth_view. cbn [kidviews kids_with].
+  rewrite nthz_map, H. reflexivity.
+Qed.
+Print Assumptions child_view_is_subwidget.
+
+(* ------------------------------------------------------------------------------------------ *)
+(* non-vacuity: the hypotheses are met by an ordinary tree and the model computes                *)
+(* ------------------------------------------------------------------------------------------ *)
+Definition lf (id : Z) (h : Z) (cur : option xy) : widget := Leaf (LeafD id false h 0 true true cur [] 1).
+Definition example_tree : widget :=
+  linebox (Pile [(PPack, Columns [(CWeight 1, false, lf 0 1 (Some (1, 0))); (CGiven 3, false, lf 1 2 None)] 0 1 1);
+                 (PPack, Padding (lf 2 1 (Some (0, 0))) GCenter 0 GGiven 3 None 1 0)] 1) true true.
+
+Example example_fits : fits example_tree (9, None) = true /\ ov_free example_tree = true /\ ov_boxtop example_tree = true.
+Proof. vm_compute. auto. Qed.
+
+Example example_cursor :
+  cursor_coords example_tree (9, None) = CSome 3 3 /\ render_cursor example_tree (9, None) true = Some (3, 3).
+Proof. vm_compute. auto. Qed.
+
+Example example_rects :
+  map (fun r => (rc_id r, rc_x r, rc_y r, rc_cols r, rc_rows r))
+      (filter (fun r => 0 <=? rc_id r) (leaf_rects example_tree (9, None) true))
+  = [(0, 1, 1, 3, 1); (1, 5, 1, 3, 2); (2, 3, 3, 3, 1)].
+Proof. vm_compute. reflexivity. Qed.
+
+Example example_mouse_and_move :
+  mouse_leaf example_tree (9, None) 6 2 true = Some (Hit 1 1 1 false (3, None)) /\
+  let m := move_cursor example_tree (9, None) 6 2 in
+  m_ok m = true /\ m_asked m = Some (1, 1, 1, (3, None)) /\ cursor_coords (m_w m) (9, None) = CSome 6 2.
+Proof. vm_compute. auto. Qed.
+
+Example example_place :
+  place (Pile [(PPack, lf 0 2 None); (PGiven 3, Leaf (LeafD 1 true 1 0 false false None [] 1))] 0) (4, None)
+  = [Placed 0 0 0 (4, None) true false; Placed 1 0 2 (4, Some 3) false false].
+Proof. vm_compute. reflexivity. Qed.
